@@ -726,7 +726,9 @@ pub fn run_property(p: &Property, ctx: &Ctx, only_sub: Option<&str>) -> i32 {
     let mut regress_fail: Vec<(PathBuf, String)> = Vec::new();
     let mut regress_run = 0u64;
     let dir = PathBuf::from(VERIF_ROOT).join("regress").join(p.id);
-    if only_sub.is_none() {
+    // VERIF_NO_REGRESS=1 (sensitivity evaluation only): skip the corpus, so that a change is judged
+    // by the generated search alone and not by the saved cases of an earlier, similar change.
+    if only_sub.is_none() && std::env::var_os("VERIF_NO_REGRESS").is_none() {
         if let Ok(rd) = std::fs::read_dir(&dir) {
             let mut files: Vec<PathBuf> = rd.filter_map(|e| e.ok().map(|e| e.path())).filter(|p| p.extension().is_some_and(|x| x == "json")).collect();
             files.sort();
